@@ -105,7 +105,8 @@ pub fn payload_strategy(t: &Arc<Table>, f: &Field, cfg: GenCfg, depth: u32) -> B
         }
         Enc::Cp437 => {
             let lens = match f.len {
-                Len::Fixed(n) => Just(n).boxed(),
+                // full width, or empty (all fill bytes: decodes to the empty text, so it is inside the canonical domain)
+                Len::Fixed(n) => prop_oneof![5 => Just(n), 1 => Just(0usize)].boxed(),
                 Len::Temp => (3usize..=4).boxed(),
                 _ => len_strategy(max_payload(&f.len, cfg.text_max)),
             };
